@@ -707,6 +707,9 @@ def apply_indices_to_index_values(indices_to_apply, indices, values):
     count = 0
     total = 0
     for i in indices_to_apply:
+        # same bounds as numpy fancy indexing: -len <= i < len
+        if i < -len(cur_) or i >= len(cur_):
+            raise IndexError("index is out of bounds for indexed field")
         count += 1
         total += next_[i] - cur_[i]
     dest_indices = np.zeros(count+1, indices.dtype)
